@@ -97,6 +97,17 @@ Proof.
            (λ n i Hi, proj1 (proj2 (proj2 (Hb n i Hi)))) o sgs).
 Qed.
 Print Assumptions C17_cover_single.
+(* several outputs: proved up to the minimal-cover filter -- every gate in the cone of an output is a gate of a supergate of
+   the de-duplicated list the filter starts from.  NOT proved: that the filter never drops the last supergate holding a gate
+   (needs a lemma across cones: if the root of s is a gate of t then every gate of s is a gate of t).  No counterexample in
+   60 000 generated multi-output circuits evaluated on the model twin, cyclic covers included. *)
+Theorem C17_cover_prefilter_partial : ∀ L all, wf_lim L → all_supergates L = Ok all →
+  ∀ n o, o ∈ outputs L → reach L n o → n ∉ inputs L → ∃ sg, sg ∈ all ∧ n ∈ gates (c_g sg).
+Proof.
+  intros L all (Hcl & [rank Hrank] & Hb).
+  exact (all_supergates_cover L rank Hcl Hrank (λ n i Hi, proj1 (Hb n i Hi)) (λ n i Hi, proj1 (proj2 (proj2 (Hb n i Hi)))) all).
+Qed.
+Print Assumptions C17_cover_prefilter_partial.
 Definition C17_cover_full : Prop := ∀ L sgs, wf_lim L → supergates L = Ok sgs →
   ∀ n o, o ∈ outputs L → reach L n o → n ∉ inputs L → ∃ sg, sg ∈ sgs ∧ n ∈ gates (c_g sg).
 
